@@ -299,6 +299,10 @@ def run(chk):
     # a case that got stuck or hit a harness problem (port taken, ...) is run once more on its own; only a
     # second failure of the same case makes the check inconclusive
     bad = [s[0]["id"] for s in segs if s[-1].get("why") in ("stuck", "harness", "driverpanic")]
+    nskipped = sum(1 for s in segs if s[-1].get("why") == "skipped")
+    if nskipped:
+        why = [s[-1].get("detail") for s in segs if s[-1].get("why") == "stuck"][:1]
+        raise V.Inconclusive("systematic hang: %d cases got stuck, %d were skipped; first: %s" % (len(bad), nskipped, why))
     if bad and not chk.replay:
         rpath, ropath = os.path.join(chk.tmp, "retry.ndjson"), os.path.join(chk.tmp, "retry-out.ndjson")
         with open(rpath, "w") as f:
